@@ -327,6 +327,18 @@ pub fn run(cx: &mut Cx) {
                 names.push(format!("{}b-1.0", "a".repeat(g - 1)));
             }
             shapes.push((p, names, "flat-groups"));
+            if g > 1 && g % 100 == 0 {
+                // ten and thirty times as many groups side by side (only this
+                // shape: the reference counts expansions by recursing on depth)
+                for big in [g * 10, g * 30, g * 100] {
+                    if big > 10_000 {
+                        continue;
+                    }
+                    let p = format!("{}-1.0", "{a}".repeat(big));
+                    let names = vec![format!("{}-1.0", "a".repeat(big)), format!("{}b-1.0", "a".repeat(big - 1)), "a-1.0".to_string()];
+                    shapes.push((p, names, "flat-groups-thousands"));
+                }
+            }
             // g levels of nesting around one literal
             let p = format!("{}a{}-1.0", "{".repeat(g), "}".repeat(g));
             shapes.push((p, vec!["a-1.0".into(), "b-1.0".into(), "-1.0".into(), "aa-1.0".into()], "nested-single"));
